@@ -2,7 +2,7 @@
 using namespace smooth;
 MC_SUBCHECK(galilei)
 {
-  const int d = mc::thorough() ? 5 : 4;
+  const int d = mc::thorough() ? 7 : 4;
   {
     c16::Harness<Galileid> h("Galileid");
     h.add("m.r3_v() = value#1.r3_v()", 0, 3, [](auto & x, const auto & p) { x.r3_v() = p.g[1].r3_v(); });
